@@ -64,7 +64,8 @@ def pat(s):
     return lst(items)
 def pat_nth(s): return lst([] if s == "-" else ["(%s, %s)" % (b(it[0] == "F"), n(it[1:])) for it in s.split(",")])
 def fin(s): return {"drop": "FinDrop", "forget": "FinForget"}[s]
-def ik(s): return {"ref": "IRef", "mut": "IMut", "tref": "ITypedRef", "tmut": "ITypedMut"}[s]
+def ik(s): return {"ref": "IRef", "mut": "IMut", "tref": "ITypedRef", "tmut": "ITypedMut",
+                   "iref": "IRef", "imut": "IMut", "itref": "ITypedRef", "itmut": "ITypedMut"}[s]
 def rk(s):
     p = s.split(":")
     if p == ["w"]: return "RWrap"
